@@ -427,6 +427,41 @@ func ruleC15Client(c *Ctx) {
 			}
 		}
 		if !found {
+			// collect-then-fail: `for _, m := range c.messages { l = append(l, m) }; for i := range l { c.replyError(l[i]) }`
+			// (replyError deletes from the map it would otherwise be ranging over)
+			collected := false
+			eachInstr(fn, func(in ssa.Instruction) {
+				if cl, ok := in.(*ssa.Call); ok && callMatches(cl, "builtin:append") && appendedElem(R, cl) == "$0.messages[*]" {
+					body := cl.Block()
+					if len(body.Preds) == 1 && atomEdges(fn, R, "more($0.messages)")(body.Preds[0], succIndex(body.Preds[0], body)) {
+						collected = true
+					}
+				}
+			})
+			for _, in := range CallsTo(fn, fCli+"replyError") {
+				r := callRender(R, in)
+				if !collected || !strings.HasPrefix(r, fCli+"replyError($0,") || !strings.HasSuffix(r, "[*])") {
+					continue
+				}
+				list := strings.TrimSuffix(strings.TrimPrefix(r, fCli+"replyError($0,"), "[*])")
+				if !strings.Contains(list, "append(") {
+					continue
+				}
+				body := in.Block()
+				if len(body.Preds) != 1 {
+					continue
+				}
+				found = true
+				ws1 := afterEdge(fn, te, nil, atomEdges(fn, R, "!more($0.messages)"), isRet)
+				ws2 := afterEdge(fn, te, nil, atomEdges(fn, R, "+* -len("+list+") >=0", "!more("+list+")"), isRet)
+				if len(ws1) == 0 && len(ws2) == 0 {
+					c.OK(rule, FnName(fn)+" | every in-flight request is failed", c.P.InstrPos(in), "the pending requests are collected from c.messages and every collected one is failed on the transport-error branch", true)
+				} else {
+					c.Bad(rule, FnName(fn)+" | every in-flight request is failed", c.P.InstrPos(in), "the transport-error branch can return without failing the pending requests", c.witnessOr(append(ws1, ws2...)))
+				}
+			}
+		}
+		if !found {
 			c.Bad(rule, FnName(fn)+" | every in-flight request is failed", "", "no unconditional replyError over all pending messages", nil)
 		}
 		// notifies the monitor
